@@ -1,2 +1,7 @@
+import Tumfl.Props.C20
 import Tumfl.Props.C16
+#print axioms Tumfl.Props.C20_delivery
+#print axioms Tumfl.Props.C20_all_comments
+#print axioms Tumfl.Props.C05_comments
+#print axioms Tumfl.Props.C05_long_brackets
 #print axioms Tumfl.Props.C16_positions
